@@ -282,7 +282,7 @@ package diam
 //@   property C03 C05 C06
 //@   requires b != nil
 //@   assume buffer_length_setting: MessageBufferLength >= 20 && MessageBufferLength < 1<<30 && poolcap(&readerBufferPool) == 20
-//@   modifies bufslice(any)
+//@   modifies bufslice(any), inpool(bufslice(b))
 //@ end
 //@
 //@ func readerBufferSlice(buf, l) (r)
@@ -342,7 +342,7 @@ package diam
 //@   property C03 C05 C06
 //@   requires reader != nil && !implements(reader, MultistreamReader) && (dictionary != nil ==> pwf(dictionary))
 //@   requires stream_wf: 0 <= pos(reader) && pos(reader) <= len(stream(reader))
-//@   modifies pos(reader), bufslice(any), bytes(any)
+//@   modifies pos(reader), bufslice(any), bytes(any), inpool(any)
 //@   ensures [C05] consumed: err == nil ==> m != nil && m.Header != nil && pos(reader) == old(pos(reader)) + int(be24(stream(reader), old(pos(reader)) + 1))
 //@   ensures [C05] header_read_back: err == nil ==> hdr_wire(m.Header, stream(reader)[old(pos(reader)):])
 //@   ensures [C05] eof_between_messages: old(pos(reader)) == len(stream(reader)) ==> err == io.EOF
@@ -451,6 +451,7 @@ package diam
 //@ func writeRetry(w, b, retries) (n, err)
 //@   property C07
 //@   requires w != nil && 0 <= written(w) && written(w) < 1<<44
+//@   requires [C07] buffer_still_owned: !inpool(b)
 //@   modifies written(w), wlog(w)[written(w):written(w)+len(b)]
 //@   ensures [C07] no_gap_no_repeat: 0 <= n && n <= len(b) && written(w) == old(written(w)) + n
 //@   ensures [C07] complete_on_success: err == nil ==> n == len(b)
@@ -466,13 +467,15 @@ package diam
 //@   assume buffer_length_setting: MessageBufferLength >= 20 && MessageBufferLength < 1<<30 && poolcap(&writerBufferPool) == MessageBufferLength
 //@   modifies
 //@   ensures [C07] room: buf != nil && cap(bufslice(buf)) >= min
+//@   ensures [C07] owned_by_the_caller: !inpool(bufslice(buf))
 //@ end
 //@
 //@ func putWriterBuffer(b)
 //@   property C07
 //@   requires b != nil
 //@   assume buffer_length_setting: MessageBufferLength >= 20 && MessageBufferLength < 1<<30 && poolcap(&writerBufferPool) == MessageBufferLength
-//@   modifies bufslice(any)
+//@   modifies bufslice(any), inpool(bufslice(b))
+//@   ensures [C07] may_be_pooled_now: cap(old(bufslice(b))) == MessageBufferLength ==> inpool(old(bufslice(b)))
 //@ end
 //@
 //@ # what a message must satisfy to be serialised: well-formed AVP list, total below the 24-bit limit
@@ -508,6 +511,7 @@ package diam
 //@ func writeStreamRetry(w, b, stream, retries) (n, err)
 //@   property C07 C16
 //@   requires w != nil && 0 <= written(w) && written(w) < 1<<44
+//@   requires [C07] buffer_still_owned: !inpool(b)
 //@   modifies written(w), wstream(w), wlog(w)[written(w):written(w)+len(b)]
 //@   ensures [C07] no_gap_no_repeat: 0 <= n && n <= len(b) && written(w) == old(written(w)) + n
 //@   ensures [C07] complete_on_success: err == nil ==> n == len(b)
@@ -522,7 +526,7 @@ package diam
 //@   property C07 C16
 //@   requires serialisable(m) && writer != nil && 0 <= written(writer) && written(writer) < 1<<44
 //@   hint wf.def(m.AVP)
-//@   modifies written(writer), wstream(writer), wlog(writer)[written(writer):written(writer)+20+sumlen(m.AVP, len(m.AVP))], bufslice(any), bytes(any)
+//@   modifies written(writer), wstream(writer), wlog(writer)[written(writer):written(writer)+20+sumlen(m.AVP, len(m.AVP))], bufslice(any), bytes(any), inpool(any)
 //@   ensures [C07] one_write_of_the_whole_message: 0 <= n && n <= 20 + sumlen(m.AVP, len(m.AVP)) && written(writer) == old(written(writer)) + n
 //@   ensures [C07] complete_on_success: err == nil ==> n == 20 + sumlen(m.AVP, len(m.AVP))
 //@   ensures [C16] on_the_given_stream: implements(writer, MultistreamWriter) ==> wstream(writer) == stream
@@ -531,7 +535,7 @@ package diam
 //@ func (*Message).WriteToStream(m, writer, stream) (n, err)
 //@   property C07 C16
 //@   requires serialisable(m) && writer != nil && 0 <= written(writer) && written(writer) < 1<<44
-//@   modifies written(writer), wstream(writer), wlog(writer)[written(writer):written(writer)+20+sumlen(m.AVP, len(m.AVP))], bufslice(any), bytes(any)
+//@   modifies written(writer), wstream(writer), wlog(writer)[written(writer):written(writer)+20+sumlen(m.AVP, len(m.AVP))], bufslice(any), bytes(any), inpool(any)
 //@   ensures [C07] complete_on_success: err == nil ==> n == 20 + sumlen(m.AVP, len(m.AVP)) && written(writer) == old(written(writer)) + n
 //@   ensures [C16] on_the_given_stream: implements(writer, MultistreamWriter) ==> wstream(writer) == stream
 //@ end
@@ -539,7 +543,7 @@ package diam
 //@ func (*Message).WriteTo(m, writer) (n, err)
 //@   property C07 C16
 //@   requires serialisable(m) && writer != nil && 0 <= written(writer) && written(writer) < 1<<44
-//@   modifies written(writer), wstream(writer), wlog(writer)[written(writer):written(writer)+20+sumlen(m.AVP, len(m.AVP))], bufslice(any), bytes(any)
+//@   modifies written(writer), wstream(writer), wlog(writer)[written(writer):written(writer)+20+sumlen(m.AVP, len(m.AVP))], bufslice(any), bytes(any), inpool(any)
 //@   ensures [C07] complete_on_success: err == nil ==> n == int64(20 + sumlen(m.AVP, len(m.AVP))) && written(writer) == old(written(writer)) + 20 + sumlen(m.AVP, len(m.AVP))
 //@   ensures [C16] answer_goes_to_the_request_stream: implements(writer, MultistreamWriter) ==> wstream(writer) == m.stream
 //@ end
